@@ -82,6 +82,10 @@ CLAIMS["C11"] = ("other", "role classification of the hand's event handlers and 
   "Decides the wiring that makes the hand wait for exactly the players it asked and move on by itself: dispatch table, waiting protocol with nobody pre-readied, completion pairing, asked sets (everyone for ready/ante, matching blind positions for blinds), signal routing, auto-next, close-once and the response timeout. Termination of every hand and order-independence of responses are not decided.",
   "DESIGN.md §4 C11", TRUST)
 
+CLAIMS["C19"] = ("other", "call-graph closure (static, interface with field-based type refinement, closures counted at creation — an over-approximation) of the auto-play entry point; guard dominance for action/priority/pay-amount agreement; timer wiring check",
+  "Decides that nothing reachable from the player runner's automatic play can call, bet, raise or move all-in, that each automated action is guarded by the hand allowing it in the stated priority, that payments are exactly the posted ante/blind for the player's position, and that automation runs only when suspended or inside the action-time timer callback. It does not decide that the time bank fires no earlier than its duration.",
+  "DESIGN.md §4 C19", TRUST)
+
 REASONS = {}
 
 checks = []
